@@ -8,6 +8,7 @@ package PKGNAME
 //  * getBlindedCoefficients(p, b) is exactly p - b in the low part and b in the high part,
 //    i.e. the coefficients of p + b*(X^n - 1): every draw enters every blinded opening
 //verif:unwind 400
+//verif:replay interpreter
 
 import (
 	"CURVEPKG/fr"
@@ -26,7 +27,13 @@ func verifHarness_randomPolynomial() {
 			allDiff = verifAnd(allDiff, !c[i].Equal(&c[j]))
 		}
 	}
-	// independent draws: no relation is forced between the coefficients
+	// independent draws: no relation is forced between the coefficients, none is forced to zero
+	for i := range c {
+		verifAssertCanBe(!c[i].IsZero(), "every coefficient of a blinding polynomial is a draw that can be non-zero")
+		one := verifNondetFr("target")
+		verifAssertCanBe(c[i].Equal(&one), "every coefficient of a blinding polynomial can take any value")
+	}
+	verifAssertCanBe(verifAnd(allDiff, allNonZero), "the coefficients of a blinding polynomial are independent draws")
 	verifCanBe(verifAnd(allDiff, allNonZero), "coefficients-independent")
 	q := getRandomPolynomial(n)
 	d := q.Coefficients()
@@ -57,6 +64,7 @@ func verifHarness_blindingOrders() {
 			nz = verifAnd(nz, !c.IsZero())
 		}
 	}
+	verifAssertCanBe(nz, "all blinding coefficients of L, R, O, Z can be non-zero at once")
 	verifCanBe(nz, "all-blinding-coefficients-nonzero")
 	verifReach("orders")
 }
